@@ -7,7 +7,7 @@ def queries():
         for h in (3, 4, 5, 6):
             quick = (h == 3 and cap in (0, 1, 2, 3, 5))
             qs.append(Query('rb_cap%d_h%d' % (cap, h), SRC, 'h_ringbuffer',
-                            'RingBuffer<Tracked>(max_size=%d), %d symbolic operations out of 18 kinds (push/emplace/pop both ends, clear, copy/move construct, copy/move assign from a buffer of max_size 2 and into a moved-from buffer, deallocate+allocate with the same and a different size, self-assign), all 8-bit values' % (cap, h),
+                            'RingBuffer<Tracked>(max_size=%d), %d symbolic operations out of 20 kinds (push/emplace/pop both ends, clear, copy/move construct, copy/move assign from a buffer of max_size 2 and into a moved-from buffer, deallocate+allocate with the same and a different size, self-assign), all 8-bit values' % (cap, h),
                             defs=['CAP=%d' % cap, 'H=%d' % h], ll2c=['--alloc-cap', '16'], tiers=('quick', 'thorough') if quick else ('thorough',), timeout=900 if quick else 3600, weight=(cap + 1) * h, unwind=3))
         qs.append(Query('rb_own_cap%d_h3' % cap, SRC, 'h_ringbuffer',
                         'heap-owning element type, max_size=%d, 3 symbolic operations, with CBMC memory-leak / double-free / use-after-free checks' % cap,
